@@ -408,6 +408,15 @@ func (ex *Exec) valEq(a, b Val, t types.Type) *Term {
 		if y, ok := b.(RefPtr); ok && y.Ref.IsLit() && y.Ref.Lit.Sign() == 0 {
 			return ts.False()
 		}
+		if fx, isF := a.(FieldPtr); isF {
+			if fy, ok := b.(FieldPtr); ok {
+				// addresses of fields: equal when they designate the same field of the same object
+				if fx.Idx != fy.Idx || !types.Identical(fx.ST, fy.ST) {
+					return ts.False()
+				}
+				return ex.valEq(fx.Base, fy.Base, nil)
+			}
+		}
 		if gx, isG := a.(GlobalPtr); isG {
 			switch y := b.(type) {
 			case GlobalPtr:
